@@ -37,6 +37,32 @@ pub fn lift(raw: &Value) -> (Value, String) {
     }
 }
 
+/// Feature tag (decides nothing; lets known_findings.json name one input class precisely): the base
+/// registers B for which the block contains the adjacent pair  `S = ...; B:k = CAST(S)`  where S is a
+/// named sub-register of B and B:k is a same-name SMALLER view of B (k < size of B).
+fn casts_to_smaller_view_of_base(raw: &Value) -> Vec<String> {
+    let table = raw["register_properties"].as_array().unwrap();
+    let entry = |name: &str| table.iter().find(|r| r["register"] == name);
+    let defs = raw["program"]["term"]["subs"][0]["term"]["blocks"][0]["term"]["defs"].as_array().unwrap();
+    let casts = ["INT_ZEXT", "INT_SEXT", "INT2FLOAT", "FLOAT2FLOAT", "TRUNC", "POPCOUNT", "LZCOUNT"];
+    let mut out = Vec::new();
+    for w in defs.windows(2) {
+        let (d1, d2) = (&w[0]["term"], &w[1]["term"]);
+        let (Some(s), Some(b)) = (d1["lhs"]["name"].as_str(), d2["lhs"]["name"].as_str()) else { continue };
+        let (Some(se), Some(be)) = (entry(s), entry(b)) else { continue };
+        if casts.contains(&d2["rhs"]["mnemonic"].as_str().unwrap_or(""))
+            && d2["rhs"]["input0"]["name"] == d1["lhs"]["name"]
+            && d2["rhs"]["input0"]["size"] == d1["lhs"]["size"]
+            && se["register"] != se["base_register"]
+            && se["base_register"] == be["register"]
+            && d2["lhs"]["size"].as_u64() < be["size"].as_u64()
+        {
+            out.push(b.to_string());
+        }
+    }
+    out
+}
+
 /// The case record of LiftMonitor.tla for the given input (raw extractor JSON + run parameters).
 pub fn exec(input: &Value) -> Value {
     // `raw` travels as JSON text (it contains nulls, which the TLA+ side must not see)
@@ -54,7 +80,7 @@ pub fn exec(input: &Value) -> Value {
         "regtable": penc::regtable(table), "ptr": sps, "le": input["le"], "seed": input["seed"],
         "sp": {"n": spn, "s": sps, "t": false}, "physregs": penc::base_registers(table),
         "pblock": penc::blk(&raw["program"]["term"]["subs"][0]["term"]["blocks"][0]),
-        "irblock": irblock, "panic": panic, "inits": input["inits"], "raw": serde_json::to_string(raw).unwrap(),
+        "irblock": irblock, "panic": panic, "casts_to_smaller_view_of_base": casts_to_smaller_view_of_base(raw), "inits": input["inits"], "raw": serde_json::to_string(raw).unwrap(),
     })
 }
 
